@@ -32,6 +32,10 @@ void harness(void)
 
 	ret = sqfs_meta_reader_read_inode(&vp_meta_obj, &super, blk, off, &ino);
 	if (ret != 0) {
+		/* callers (dir_iterator.c it_next, dir_reader.c resolve_path) free the
+		   result pointer on their error paths: a failed read must not leave a
+		   dangling pointer to an object it has already released */
+		VP_ASSERT(ino == NULL, "C05: a failed inode read hands out no pointer (a released object left in *result is freed a second time by the callers)");
 		VP_REACH("error");
 		return;
 	}
